@@ -77,6 +77,20 @@ def judge(rec, sp, r):
     """Single-run oracles (1),(3),(4),(5)."""
     flags = sp["flags"]
     dirs = sp["diras"]
+    # names that must not occur in a language's files (constants of an enumeration inside a scope whose wrapper is off)
+    for lang_, toks in (sp.get("absent") or {}).items():
+        for rel, text in r["outputs"].items():
+            is_f = rel.endswith((".f", ".f90"))
+            kind_ = "fortran" if is_f else ("python" if os.path.basename(rel).startswith("py") else ("lua" if os.path.basename(rel).startswith("lua") else "c"))
+            if kind_ != lang_ or rel.endswith((".json", ".log", ".yaml", ".txt")):
+                continue
+            code = "\n".join(ln for ln in text.split("\n") if not ln.lstrip().startswith("!" if is_f else "//"))
+            for t_ in toks:
+                rec.count("absent_name_checks")
+                if re.search(r"(?<![A-Za-z0-9])%s(?![A-Za-z0-9])" % re.escape(t_), code, re.I):
+                    rec.violation("wrap-off-scope-contents-present:%s:%s" % (lang_, sp.get("absent_kind", "name")),
+                                  "%s: %s occurs in %s although the enclosing scope has wrap_%s off" % (sp["name"], t_, rel, lang_), sp)
+                    break
     by_kind = {}
     for f in r["events"]["files"]:
         by_kind.setdefault(f["kind"], []).append(f["rel"])
@@ -324,6 +338,68 @@ def main(rec):
                            {"c": 0, "fortran": 0, "python": 0, "lua": 0}, dir_assignment(r), flags)
             sp["lang"] = "c++"
             specs.append(sp)
+    # fixed part: in a library wrapped for all four languages every second function has one language switched off (and,
+    # the other way round, one language is off for the library and switched on for every second function)
+    allw = [x for x in gen.instances("c++", ("c", "fortran", "python", "lua")) if x[0]["id"] in ("scalar2", "mixed", "bool1", "void0", "default2", "str_cref", "overload2")]
+    seen_ids = set()
+    fixed_items = [x for x in allw if not (x[0]["id"] in seen_ids or seen_ids.add(x[0]["id"]))]
+    for lang_t in ("c", "fortran", "python", "lua"):
+        for mode in ("off-on-some", "on-on-some"):
+            for parity in (0, 1):
+                nm = "ovrfix_%s_%s%d" % (lang_t, mode.split("-")[0], parity)
+                d = gen.library(nm, "c++", fixed_items, ("c", "fortran", "python", "lua"))
+                lib_on = mode == "off-on-some"
+                lib_flags = {"c": 1, "fortran": 1, "python": 1, "lua": 1}
+                if not lib_on:
+                    lib_flags[lang_t] = 0
+                    if lang_t == "c":
+                        lib_flags["fortran"] = 0
+                for k_, v_ in lib_flags.items():
+                    d["options"]["wrap_" + k_] = bool(v_)
+                decl_flags = {}
+                stems_ = []
+                for ent in d["declarations"]:
+                    m_ = re.search(r"\b(f\d+[a-z0-9]+)", ent["decl"])
+                    if m_ and m_.group(1) not in stems_:
+                        stems_.append(m_.group(1))
+                for ent in d["declarations"]:
+                    m_ = re.search(r"\b(f\d+[a-z0-9]+)", ent["decl"])
+                    if not m_:
+                        continue
+                    st_ = m_.group(1)
+                    fl = dict(lib_flags)
+                    if stems_.index(st_) % 2 == parity:
+                        val = not lib_on
+                        ov = {"wrap_" + lang_t: val}
+                        fl[lang_t] = int(val)
+                        if lang_t == "c" and not val:
+                            ov["wrap_fortran"] = False
+                            fl["fortran"] = 0
+                        if lang_t == "fortran" and val:
+                            ov["wrap_c"] = True
+                            fl["c"] = 1
+                        ent.setdefault("options", {}).update(ov)
+                    decl_flags[st_] = fl
+                sp = make_spec(nm, "work/%s.yaml" % nm, workloads.dump_yaml(d), None, [], lib_flags, dir_assignment(r), decl_flags)
+                sp["lang"] = "c++"
+                specs.append(sp)
+    # a namespace whose wrapper for one language is off (with and without F_flatten_namespace / nested inside another
+    # namespace): the constants of an enumeration declared in it do not appear in that language's files
+    for lang_off in ("fortran", "python"):
+        for flat in (False, True):
+            for nested in (False, True):
+                nm = "nsoff_%s%s%s" % (lang_off, "_flat" if flat else "", "_nested" if nested else "")
+                inner = {"decl": "namespace detail", "options": dict({"wrap_" + lang_off: False}, **({"F_flatten_namespace": True} if flat else {})),
+                         "declarations": [{"decl": "enum Shade { VFDARKSHADE = 3, VFLIGHTSHADE }"}, {"decl": "int vfperimeter(int a)"}]}
+                decls_ = [{"decl": "int vfarea(int a)"}, ({"decl": "namespace outerpart", "declarations": [{"decl": "int vfedge(int a)"}, inner]} if nested else inner)]
+                d = {"library": nm, "cxx_header": nm + ".hpp", "language": "c++",
+                     "options": {"wrap_c": True, "wrap_fortran": True, "wrap_python": lang_off == "python", "wrap_lua": False}, "declarations": decls_}
+                sp = make_spec(nm, "work/%s.yaml" % nm, workloads.dump_yaml(d), None, [],
+                               {"c": 1, "fortran": 1, "python": int(lang_off == "python"), "lua": 0}, dir_assignment(r), {})
+                sp["lang"] = "c++"
+                sp["absent"] = {lang_off: ["vfdarkshade", "vflightshade"]}
+                sp["absent_kind"] = "enum-constant:%s%s" % ("flattened" if flat else "module", ":nested" if nested else "")
+                specs.append(sp)
     # overload sets of which one member is switched off for C and Fortran only (it then follows the library-level
     # Python / Lua switches): the names of the remaining members must not depend on those switches
     # (every single-row library with an overload set takes part in every run)
